@@ -268,27 +268,144 @@ def gen_twins(rng, taken):
     return out
 
 
+# ---- names that are not in Unicode normal form C, twins that differ only in normalisation or case, other non-ASCII names.
+# Each group is a list of project-relative paths that may stand side by side in one tree (Linux keeps names byte for byte).
+UNI_GROUPS = [
+    ["re\u0301sume\u0301.md", "r\xe9sum\xe9.md"],   # decomposed / composed twins
+    ["docs/cafe\u0301.md", "docs/caf\xe9.md", "docs/cafe.md"],
+    ["Cafe\u0301/menu.txt", "Caf\xe9/menu.txt"],   # the DIRECTORY is the twin
+    ["src/u\u0308ber/a\u0308.py", "src/\xfcber/a\u0308.py", "src/\xfcber/\xe4.py"],
+    ["\u212b.txt", "\xc5.txt", "A\u030a.txt"],   # ANGSTROM SIGN / composed / decomposed
+    ["\u2126hm.txt", "\u03a9hm.txt"],   # OHM SIGN / GREEK CAPITAL OMEGA
+    ["\u1112\u1161\u11ab\u1100\u1173\u11af.txt", "\ud55c\uae00.txt"],   # Hangul jamo / syllables
+    ["\u1112\u1161\u11ab/\u1100\u1173\u11af.txt"],
+    ["x\u0307\u0323.txt", "x\u0323\u0307.txt", "\u1e8b\u0323.txt"],   # combining marks in both orders (NFC reorders them)
+    ["e\u0301\u0301.txt", "\xe9\u0301.txt"],   # stacked accents
+    ["\u0340grave.txt", "\u0300grave.txt"],   # a mark with a singleton decomposition, leading
+    ["\ufb01le.txt", "file.txt"],   # ligature (NFC keeps it, NFKC does not)
+    ["\uff46\uff55\uff4c\uff4c.txt", "full.txt"],   # full-width letters
+    ["\xdf.txt", "ss.txt", "SS.txt"],   # case folding
+    ["\u0130.txt", "i\u0307.txt", "I.txt", "i.txt"],
+    ["README.MD", "readme.md", "Readme.md"],   # case twins
+    ["Makefile.am", "makefile.am", "dir/File.c", "Dir/File.c", "dir/file.c"],
+    ["\U0001f600.txt", "emoji \U0001f468\u200d\U0001f469\u200d\U0001f467.md"],   # outside the BMP, joiners
+    ["\u05e2\u05d1\u05e8\u05d9\u05ea.txt", "\u0639\u0631\u0628\u064a.txt"],   # right-to-left
+    ["\u0928\u093f.txt", "\u0915\u093c.txt", "\u0958.txt"],   # Devanagari: U+0958 is excluded from composition
+    ["\xa0nbsp.txt", "\u200bzero.txt", "soft\xadhyphen.txt"],   # blanks that are not blanks
+    ["\u01c5.txt", "\u01c4.txt", "\u01c6.txt", "D\u017d.txt"],   # title-case digraph
+]
+
+
+def is_nfc(s):
+    import unicodedata
+    return unicodedata.normalize("NFC", s) == s
+
+
+def rand_file(rng, p):
+    kind = rng.choice(["text", "text", "text", "big", "bin", "bin", "tiny", "empty"])
+    if p.endswith(".bin") and kind != "empty":
+        kind = "bin"  # binaryornot decides by extension first
+    f = {"path": p, "kind": kind, "size": rng.choice(SIZES), "seed": rng.randint(0, 10 ** 6),
+         "header": None, "license": None, "toml": None}
+    if kind in ("text", "big") and rng.random() < 0.7:
+        f["header"] = rand_info(rng)
+    if kind != "empty":
+        if rng.random() < (0.5 if kind in ("bin", "tiny") else 0.15):
+            f["license"] = rand_info(rng)
+        if rng.random() < 0.3:
+            t = rand_info(rng)
+            t["prec"] = rng.choice(["closest", "aggregate", "override", None])
+            f["toml"] = t
+    return f
+
+
+def gen_uni(rng, taken):
+    """1-2 groups of names outside ASCII / outside NFC; of each group all members, or a part of it"""
+    out = []
+    for grp in rng.sample(UNI_GROUPS, rng.choice([1, 1, 2])):
+        members = list(grp) if rng.random() < 0.6 else rng.sample(grp, rng.randint(1, len(grp)))
+        shared = rand_file(rng, "x") if rng.random() < 0.3 else None      # twins with the same content and information
+        for p in members:
+            if p in taken or any(q.startswith(p + "/") or p.startswith(q + "/") for q in taken):
+                continue
+            taken.add(p)
+            f = dict(json.loads(json.dumps(shared)), path=p) if shared else rand_file(rng, p)
+            if f["kind"] == "empty" and rng.random() < 0.7:
+                f["kind"] = "text"
+            out.append(f)
+    return out
+
+
+# ---- one notice in several spellings
+COP_TAGS = ["SPDX-FileCopyrightText: ", "SPDX-FileCopyrightText: (C) ", "SPDX-FileCopyrightText: (c) ", "SPDX-FileCopyrightText: © ",
+            "SPDX-FileCopyrightText: Copyright ", "SPDX-FileCopyrightText: Copyright (C) ", "SPDX-FileCopyrightText: Copyright © ",
+            "SPDX-SnippetCopyrightText: ", "Copyright ", "Copyright (C) ", "Copyright (c) ", "Copyright © ", "© "]
+TWIN_HOLDERS = ["Jane Doe", "Example Corp", "Jörg Müller <j@example.org>", "FSFE e.V.", "The Demo Authors", "jane@example.com"]
+
+
+def spellings(rng, k, bare):
+    """k different lines that state ONE notice: another tag in front (SPDX-FileCopyrightText / Copyright / the sign, with and without
+    (C)), the holder in another case, a comma after the year, a year range, several blanks or a tab inside; with `bare` (REUSE.toml values are taken as they are) also the notice
+    without any tag and with two blanks inside.  By construction every tagged line is what the extraction keeps of a header line
+    holding it: a recognised tag, one blank, the year, the holder, nothing behind."""
+    year, holder = str(rng.randint(1990, 2025)), rng.choice(TWIN_HOLDERS)
+    forms = []
+    for h in (holder, holder, holder.upper(), holder.lower()):
+        for y in (year + " ", year + " ", year + ", ", year + "-" + str(int(year) + 3) + " "):
+            n = y + h
+            forms.extend(t + n for t in COP_TAGS)
+            if bare:
+                forms.extend([n, n, n, y + " " + h])
+    rng.shuffle(forms)
+    # the plain pair first: same year, same holder, tag / no tag (or two tags)
+    base = year + " " + holder
+    first = [base] if bare and rng.random() < 0.6 else [rng.choice(COP_TAGS[7:]) + base]
+    out = uniq(first + ["SPDX-FileCopyrightText: " + base] * (rng.random() < 0.7) + forms)[:k]
+    if rng.random() < 0.35:
+        # the blanks inside a notice are part of it: two blanks / a tab where another spelling has one
+        j = rng.randrange(1, len(out))
+        head, _, tail = out[j].rpartition(" ")
+        out[j] = head + rng.choice(["  ", "   ", " \t", "\t"]) + tail
+    return uniq(out)
+
+
+def add_twin_notices(rng, files):
+    """In 1-2 covered files one notice reaches the file in two or three spellings: two lines of one header / one .license file, a
+    REUSE.toml table (aggregate: both sources count) beside the header or the .license file, two values of one REUSE.toml table."""
+    cands = [f for f in files if f["kind"] != "empty"]
+    for f in rng.sample(cands, min(len(cands), rng.choice([1, 1, 2]))):
+        own = "license" if f["license"] or f["kind"] not in ("text", "big") else "header"
+        shape = rng.choice(["own-pair", "toml+own", "toml+own", "toml+own", "toml-pair"])
+        if shape == "own-pair":
+            ls = spellings(rng, rng.choice([2, 2, 3]), False)
+            f[own] = f[own] or {"e": ["MIT"], "c": []}
+            f[own]["raw"] = ls
+        elif shape == "toml+own":
+            ls = spellings(rng, rng.choice([2, 2, 3]), True)
+            tagged = [l for l in ls if l[:1] in "SC©" and not l[0].isdigit()] or ["SPDX-FileCopyrightText: 2000 Jane Doe"]
+            f[own] = f[own] or {"e": ["MIT"], "c": []}
+            f[own]["raw"] = tagged[:rng.choice([1, 1, 2])]
+            t = f["toml"] or {"e": [], "c": []}
+            t["c"] = uniq(t["c"] + [l for l in ls if l not in f[own]["raw"]] + ([ls[0]] if rng.random() < 0.3 else []))
+            t["prec"] = "aggregate" if rng.random() < 0.85 else rng.choice(["closest", "override", None])
+            f["toml"] = t
+        else:
+            t = f["toml"] or {"e": ["0BSD"], "c": [], "prec": rng.choice(["closest", "aggregate", "override", None])}
+            t["c"] = uniq(t["c"] + spellings(rng, rng.choice([2, 3]), True))
+            f["toml"] = t
+
+
 def gen_tree(rng, nfiles=None):
     paths = rng.sample(PATHS, nfiles or rng.randint(1, 8))
     files = []
     for p in paths:
-        kind = rng.choice(["text", "text", "text", "big", "bin", "bin", "tiny", "empty"])
-        if p.endswith(".bin") and kind != "empty":
-            kind = "bin"  # binaryornot decides by extension first
-        f = {"path": p, "kind": kind, "size": rng.choice(SIZES), "seed": rng.randint(0, 10 ** 6),
-             "header": None, "license": None, "toml": None}
-        if kind in ("text", "big") and rng.random() < 0.7:
-            f["header"] = rand_info(rng)
-        if kind != "empty":
-            if rng.random() < (0.5 if kind in ("bin", "tiny") else 0.15):
-                f["license"] = rand_info(rng)
-            if rng.random() < 0.3:
-                t = rand_info(rng)
-                t["prec"] = rng.choice(["closest", "aggregate", "override", None])
-                f["toml"] = t
-        files.append(f)
+        files.append(rand_file(rng, p))
     if rng.random() < 0.35:
         files.extend(gen_twins(rng, {f["path"] for f in files}))
+    if rng.random() < 0.4:
+        files.extend(gen_uni(rng, {f["path"] for f in files}))
+    if rng.random() < 0.4:
+        add_twin_notices(rng, files)
     lics = []
     used = set()
     for f in files:
@@ -309,8 +426,13 @@ def gen_tree(rng, nfiles=None):
             "mp": rng.random() < 0.12, "out": rng.choice([None, None, "outside", "inside"])}
 
 
+def cop_lines(info):
+    """the copyright lines of a header / .license file: the notices behind the SPDX tag, then the lines that bring their own tag"""
+    return ["SPDX-FileCopyrightText: " + c for c in info["c"]] + list(info.get("raw", []))
+
+
 def header_lines(info):
-    return ["SPDX-FileCopyrightText: " + c for c in info["c"]] + ["SPDX-License-Identifier: " + e for e in info["e"]]
+    return cop_lines(info) + ["SPDX-License-Identifier: " + e for e in info["e"]]
 
 
 def content_of(f):
@@ -337,7 +459,7 @@ def toml_text(files):
         t = f["toml"]
         if not t:
             continue
-        out.append("\n[[annotations]]\npath = %s\n" % json.dumps(f["path"]))
+        out.append("\n[[annotations]]\npath = %s\n" % json.dumps(f["path"], ensure_ascii=max(f["path"]) <= "\uffff"))
         if t.get("prec"):
             out.append("precedence = %s\n" % json.dumps(t["prec"]))
         if t["c"]:
@@ -379,7 +501,7 @@ def truth(f):
     t = f["toml"]
     if t and t.get("prec") == "override":
         own = None
-    own_c = uniq(["SPDX-FileCopyrightText: " + c for c in own["c"]]) if own else []
+    own_c = uniq(cop_lines(own)) if own else []
     own_e = uniq(own["e"]) if own else []
     srcs = []
     tc, te = (uniq(t["c"]), uniq(t["e"])) if t else ([], [])
@@ -455,22 +577,33 @@ def canon_doc(out):
 
 class TreeStream(Stream):
     name = "tree"
-    rule = ("generated project trees (1-8 files from a pool with spaces, quotes, non-ASCII, nested directories, a third of the trees with one or two groups of 2-4 files that share base name AND content in different directories -- header-only __init__.py, identical stubs and binaries --; content "
+    rule = ("generated project trees (1-8 files from a pool with spaces, quotes, non-ASCII, nested directories, a third of the trees with one or two groups of 2-4 files that share base name AND content in different directories -- header-only __init__.py, identical stubs and binaries --; "
+            "40 percent of the trees with 1-2 groups of names outside ASCII: file and directory names that are not in Unicode normal form C (combining accents, Hangul jamo, ANGSTROM / OHM SIGN, marks in non-canonical order, U+0958), their composed twins side by side, "
+            "case twins and case-folding twins (README.MD / readme.md, U+00DF / ss, U+0130), ligature and full-width letters, names outside the BMP, right-to-left, NBSP / ZWSP / soft hyphen; 40 percent of the trees with 1-2 files that one notice reaches in 2-3 spellings -- "
+            "two lines of one header or .license file, a REUSE.toml table (aggregate, sometimes closest / override) beside the header or .license file, two values of one table; spellings: SPDX-FileCopyrightText / SPDX-SnippetCopyrightText / Copyright / the sign with and "
+            "without (C), no tag at all (REUSE.toml), holder in another case, comma after the year, a year range --; content "
             "empty / 1 byte / text / > 64 KiB / binary at sizes around the 8 KiB read chunk; 0-3 expressions with WITH/AND/OR "
             "nesting per source; sources header, .license, REUSE.toml closest/aggregate/override; LicenseRef texts with blank "
-            "lines, CRLF, fake tags) x every option set of `reuse spdx` (9 sets, one also through --output inside or outside the "
+            "lines, CRLF, fake tags) x every option set of `reuse spdx` (9 sets; in the quick tier every set for the first 20 trees and three of the nine for the others; one also through --output inside or outside the "
             "project, 12% with the process pool): real output compared with the model's document built from generator ground "
             "truth (+ the tool's own LicenseConcluded, each one decided by the verified checker BoolExpr.equiv against the AND of the "
             "ground-truth expressions); the Lean tag-value reader reads every real document and must agree with the harness reader; oracle = property clauses against lint --json "
-            "and hashlib; non-trivial = tree with >= 2 covered files and at least one file with information")
+            "and hashlib: exactly one File section per covered file with FileName = ./ + the path as stored (code point for code point, i.e. byte for byte in UTF-8), the SHA-1 of that file's bytes, the copyright lines of FileCopyrightText = the lines lint attributes; non-trivial = tree with >= 2 covered files and at least one file with information")
 
     def __init__(self):
         self.cache = {}
 
     def cases(self, tier, rng):
-        n = 1500 if tier == "thorough" else 100
+        n = 1250 if tier == "thorough" else 100
         for i in range(n):
-            yield gen_tree(rng)
+            case = gen_tree(rng)
+            if tier != "thorough" and i >= 20:
+                # quick tier: the first 20 trees under every option set, the others under three of the nine
+                three = rng.sample(OPTSETS, 3)
+                case["optsets"] = [k for k in OPTSETS if k in three]
+                with_doc = [k for k in case["optsets"] if k != "add-alone"]
+                case["outkey"] = rng.choice(with_doc)
+            yield case
 
     # -- implementation
     def run_real(self, case):
